@@ -261,6 +261,7 @@ func runC17(b *mon.B) {
 
 	// ---------------- pacing / idle scenarios ----------------
 	pacing := []string{"silent", "partial-header-then-silence", "partial-body-then-silence", "byte-just-before-each-deadline", "periodic-10s-gaps", "packet-then-silence", "slow-second-packet",
+		"open-session-then-silence", "open-session-then-partial-packet", "two-open-sessions-then-silence",
 		"proxy:silent", "proxy:partial-line-then-silence", "proxy:line-then-silence", "proxy:line-and-packet-then-silence"}
 	for k := 0; k < b.N(40, 900); k++ {
 		caseNo++
@@ -284,6 +285,10 @@ func runC17(b *mon.B) {
 		typ := 1 + r.Intn(3)
 		mk := func(seq int, sid uint32) []byte {
 			return pktSpec{H: rfc8907.Header{Major: 0xc, Minor: 0, Type: typ, Seq: seq, Session: sid}, Clear: markedBody(r, typ, 'x')}.wire(secret)
+		}
+		// a packet whose reply registers a continuation: the session stays open
+		mkOpen := func(seq int, sid uint32) []byte {
+			return pktSpec{H: rfc8907.Header{Major: 0xc, Minor: 0, Type: typ, Seq: seq, Session: sid}, Clear: markedBody(r, typ, 'C')}.wire(secret)
 		}
 		expectHandlers := 0
 		expectOpen := false
@@ -313,6 +318,27 @@ func runC17(b *mon.B) {
 			c.Feed(mk(1, 5))
 			c.Stall()
 			expectHandlers = 1
+		case "open-session-then-silence":
+			// idle in the middle of a multi-packet exchange
+			c.Feed(mkOpen(1, 5))
+			if r.Bool() {
+				c.Feed(mkOpen(3, 5))
+				expectHandlers = 1
+			}
+			c.Stall()
+			expectHandlers++
+		case "open-session-then-partial-packet":
+			c.Feed(mkOpen(1, 5))
+			w := mk(3, 5)
+			c.Feed(w[:1+r.Intn(len(w)-1)])
+			c.Stall()
+			expectHandlers = 1
+		case "two-open-sessions-then-silence":
+			c.Feed(mkOpen(1, 5))
+			c.Feed(mkOpen(1, 6))
+			c.Feed(mk(3, 5))
+			c.Stall()
+			expectHandlers = 3
 		case "proxy:silent":
 			c.Stall()
 		case "proxy:partial-line-then-silence":
